@@ -71,6 +71,21 @@ Theorem C08_int_comparators :
   (forall a b c, le_rev a b = true -> le_rev b c = true -> le_rev a c = true).
 Proof. unfold le_int, le_rev. repeat split; intros; rewrite ?Z.leb_le in *; lia. Qed.
 
+(* every comparator shape the harness uses (cmpsel: -1/0/+1, its reverse, a-b, b-a, (a-b)*7, struct priority
+   subtraction) satisfies the premises of C08_heap *)
+Theorem C08_cmpsel_orders : forall s,
+  (forall a b, le_sel s a b = true \/ le_sel s b a = true) /\
+  (forall a b c, le_sel s a b = true -> le_sel s b c = true -> le_sel s a c = true).
+Proof.
+  intros s. unfold le_sel. split.
+  - intros a b. rewrite !Z.leb_le. destruct s; cbn [cmp_sel];
+      repeat match goal with |- context [if ?c then _ else _] => destruct c eqn:? end;
+      rewrite ?Z.ltb_lt, ?Z.ltb_ge, ?Z.eqb_eq, ?Z.eqb_neq in *; lia.
+  - intros a b c. rewrite !Z.leb_le. destruct s; cbn [cmp_sel];
+      repeat match goal with |- context [if ?c then _ else _] => destruct c eqn:? end;
+      rewrite ?Z.ltb_lt, ?Z.ltb_ge, ?Z.eqb_eq, ?Z.eqb_neq in *; lia.
+Qed.
+
 (* non-vacuity: wrap-around of a 2-slot ring with zero values; a heap run with bulk push and duplicates *)
 Local Open Scope Z_scope.
 Example C08_nonvacuous :
@@ -91,3 +106,4 @@ Print Assumptions C08_spec_lastn.
 Print Assumptions C08_heap_peek_is_next_pop.
 Print Assumptions C08_heap_root_is_min.
 Print Assumptions C08_int_comparators.
+Print Assumptions C08_cmpsel_orders.
